@@ -935,4 +935,52 @@ def coplanar_scale_free(repo: Repo) -> RuleRun:
 coplanar_scale_free.rule_id = "C20.COPLANAR-SCALE-FREE"
 
 
-RULES = [one_sided_tol, one_sided_range, guard_eval, guard_table, lifecycle_state, signed_magnitude, message_strictness, perpendicular_scale_free, coplanar_scale_free]
+
+def signed_factor(repo: Repo) -> RuleRun:
+    """'inner radius not below outer' is a range, 0 < inner < outer, and 'a precondition stated as a ... range is enforced on both
+    sides of it': the ring sketch places its inner points at centre + unit * inner_radius, so the caller's raw number is a SIGNED
+    factor - a negative one puts the inner points on the other side of the axis (every face then crosses the axis) while the radii
+    the existing guard compares are norms and hide the sign; zero collapses the inner edge onto the axis. A float parameter that
+    multiplies a unit vector to place a point must be refused when it is zero or negative: the raising guards of the constructor
+    are evaluated with the parameter at 0 and at -1."""
+    r = RuleRun(PROP, "C20.SIGNED-FACTOR", floor=1, what="a radius parameter used as a signed factor of a unit vector (centre + unit * radius) is refused when zero or negative")
+    n = 0
+    for qn in ("construct.flat.sketches.annulus.Annulus.__init__",):
+        fn = repo.func(qn)
+        floats = {a.arg for a in fn.node.args.args if a.annotation is not None and ast.unparse(a.annotation) in ("float", "int")}
+        for prm in sorted(floats):
+            used = [
+                b
+                for b in ast.walk(fn.node)
+                if isinstance(b, ast.BinOp) and isinstance(b.op, ast.Mult) and any(isinstance(x, ast.Name) and x.id == prm for x in (b.left, b.right)) and any(isinstance(x, ast.Call) and (attr_chain(x.func) or "").split(".")[-1] == "unit_vector" for x in (b.left, b.right))
+            ]
+            if not used:
+                continue
+            n += 1
+
+            def truth(test: ast.expr, value: float) -> Optional[bool]:
+                try:
+                    code = compile(ast.Expression(body=test), "<guard>", "eval")
+                    return bool(eval(code, {"__builtins__": {}}, {prm: value, "TOL": 1e-7, "VSMALL": 1e-12}))  # the guard's own comparison on a number
+                except Exception:  # noqa: BLE001 - other names in the test: not a guard on this parameter alone
+                    return None
+
+            guards = [g for g in ast.walk(fn.node) if isinstance(g, ast.If) and any(isinstance(x, ast.Raise) for x in g.body) and any(isinstance(x, ast.Name) and x.id == prm for x in ast.walk(g.test))]
+            ok = any(truth(g.test, 0.0) is True and truth(g.test, -1.0) is True and truth(g.test, 0.5) is False for g in guards)
+            r.check(
+                ok,
+                fn,
+                f"'{prm}' (factor of a unit vector in '{ast.unparse(used[0])[:50]}') is refused at 0 and below",
+                f"{fn.qualname} places a point at '{ast.unparse(used[0])[:70]}' - the caller's '{prm}' is a signed factor - but no guard refuses {prm} <= 0: ExtrudedRing([0,0,0],[0,0,1],[1,0,0], -0.5) "
+                "is built with its inner points on the far side of the axis (every face crosses it), inner radius 0 collapses the inner edge; the existing guard compares norms, which hide the sign",
+                used[0],
+                key=f"factor:{prm}",
+            )
+    r.require(n >= 1, "Annulus.__init__ no longer scales a unit vector by a float parameter (re-written?)")
+    return r
+
+
+signed_factor.rule_id = "C20.SIGNED-FACTOR"
+
+
+RULES = [one_sided_tol, one_sided_range, guard_eval, guard_table, lifecycle_state, signed_magnitude, message_strictness, perpendicular_scale_free, coplanar_scale_free, signed_factor]
